@@ -13,3 +13,5 @@ for id in "$@"; do
   PV_REPO=$S timeout 1500 ./check $id ${TIER:-quick} 2>&1 | grep -E "VIOLATION|KNOWN-FINDING|^$id |^  " | cut -c1-400 | head -${LINES_MAX:-12}
 done
 rm -rf $S /verif/_work/build-*-$H /verif/_work/bin/*-$H
+# the translators wrote coq/Gen/*.v from the scratch tree: put the committed (= /repo) versions back
+git -C /verif checkout -- coq/Gen 2>/dev/null || true
